@@ -327,6 +327,19 @@ func (self *Node) makeReturnBindings(directReturn []*syntax.BindStm) {
 	}
 	refs, fileRefs := self.makePrenodesForBinding(
 		self.call.ResolvedOutputs(), nil, nil)
+	// A merge over a map call of a sub-pipeline, none of whose referenced
+	// outputs fork with that call, still has one element per fork of the
+	// sub-pipeline, so it cannot be resolved before those forks are known.
+	for _, fqid := range unanchoredMergeCalls(
+		self.call.ResolvedOutputs().Exp, nil) {
+		if n := self.top.allNodes[fqid]; n != nil && n != self &&
+			strings.HasPrefix(fqid, self.call.GetFqid()+".") {
+			if refs == nil {
+				refs = make(map[Nodable]struct{})
+			}
+			refs[n] = struct{}{}
+		}
+	}
 	if len(refs) > 0 {
 		if self.prenodes == nil {
 			self.prenodes = make(map[string]Nodable, len(refs))
@@ -339,6 +352,33 @@ func (self *Node) makeReturnBindings(directReturn []*syntax.BindStm) {
 	if len(fileRefs) > 0 {
 		self.attachToFileParents(fileRefs)
 	}
+}
+
+// unanchoredMergeCalls returns the IDs of the calls which are merged over in
+// the given expression by merges which do not refer to a node whose forks
+// determine the shape of the merge.
+func unanchoredMergeCalls(exp syntax.Exp, result []string) []string {
+	switch exp := exp.(type) {
+	case *syntax.MergeExp:
+		if exp.ForkNode == nil && exp.Call != nil &&
+			!exp.MergeOver.KnownLength() {
+			result = append(result, exp.Call.GetFqid())
+		}
+		result = unanchoredMergeCalls(exp.Value, result)
+	case *syntax.ArrayExp:
+		for _, v := range exp.Value {
+			result = unanchoredMergeCalls(v, result)
+		}
+	case *syntax.MapExp:
+		for _, v := range exp.Value {
+			result = unanchoredMergeCalls(v, result)
+		}
+	case *syntax.SplitExp:
+		result = unanchoredMergeCalls(exp.Value, result)
+	case *syntax.DisabledExp:
+		result = unanchoredMergeCalls(exp.Value, result)
+	}
+	return result
 }
 
 func (self *Node) attachToFileParents(fileParents map[Nodable]map[string]syntax.Type) {
